@@ -5,6 +5,8 @@ import Bclv.Proofs.ParserErase4
 import Bclv.Proofs.LexLayout3
 import Bclv.Proofs.LexRender6
 import Bclv.Proofs.LexRender9
+import Bclv.Proofs.Group9
+import Bclv.Proofs.LexRender10
 /-!
 # C20 — layout, comments and redundant parentheses never change meaning
 
@@ -173,5 +175,43 @@ theorem comment_end {σ : Type} (P : LexPrims σ) (f : Nat) (s : σ) :
        else commentLoop P f (P.next s).2) := rfl
 
 theorem eol_set (r : Rune) : isEol r = true ↔ r = 10 ∨ r = 13 := by simp [isEol]
+
+/-- **Nothing between the quotes is layout, whatever the bytes**: any byte but `"`, `\` and line
+feed stands for itself — multi-byte characters, invalid UTF-8, `#`, `;`, parentheses, every
+whitespace character but the line feed — and a backslash takes the next ASCII byte with it;
+the token's text is the literal, byte for byte. -/
+theorem string_literal_any_bytes (body : Bytes) (h : StrBodyB body) :
+    Lexeme (strText body) { typ := .STR, val := strText body } FStr :=
+  lexeme_str_bytes body h
+
+/-! ## the optional `;` and redundant parentheses, at the level of the tree's shape
+
+`RdProgF` (`Proofs/Group7.lean`) is the reading relation of C01 with the side conditions on what
+may follow a statement.  The token kinds of an accepted text read as the shape of the program
+tree and as no other (`C01.accepted_source_has_one_reading`), so two accepted texts whose token
+kinds read as one common shape are parsed to trees of that same shape — whatever differs between
+them.  What may differ: a `;` after a statement (`optional_semicolon`), parentheses around
+anything that reads as an expression (`C01.parentheses_read_the_same`).  The shape is the tree
+without its leaves' contents (which constant, which variable) and without positions. -/
+
+/-- two accepted texts whose token kinds read as one common shape have program trees of that shape -/
+theorem same_reading_same_shape (a b : Bytes)
+    (ha : (parseTokens (lexWhole a) (newlinesFrom 0 a)).ok = true)
+    (hb : (parseTokens (lexWhole b) (newlinesFrom 0 b)).ok = true)
+    (ss : ShSs)
+    (hra : ∀ body e, lexWhole a = body ++ [e] → RdProgF ss (typs body) .EOF)
+    (hrb : ∀ body e, lexWhole b = body ++ [e] → RdProgF ss (typs body) .EOF) :
+    shapeSs (parseTokens (lexWhole a) (newlinesFrom 0 a)).prog.body =
+    shapeSs (parseTokens (lexWhole b) (newlinesFrom 0 b)).prog.body := by
+  obtain ⟨ba, ea, hla, _, _, hua⟩ := source_reads_unique a ha
+  obtain ⟨bb, eb, hlb, _, _, hub⟩ := source_reads_unique b hb
+  rw [← hua ss (hra ba ea hla), ← hub ss (hrb bb eb hlb)]
+
+/-- **The optional `;`**: a `;` after a statement leaves the reading as it was (first statement
+of a program; `Group9.semicolon_after_first_in_body` is the same inside a block). -/
+theorem optional_semicolon (s : ShS) (ss : ShSs) (ts rest : List TokType) (c : TokType)
+    (hs : RdSF false s ts (followOf rest c)) (hrest : RdProgF ss rest c) :
+    RdProgF (.cons s ss) (ts ++ .SEMICOLON :: rest) c :=
+  semicolon_after_first s ss ts rest c hs hrest
 
 end Bclv.C20
